@@ -112,18 +112,33 @@ def _rr_concrete(n, splits, restore_at=(), b_check=None):
     def model(theta, N, seed):
         return np.full((N, 1), float(theta[0]))
 
-    c = cal.Calibrator(loss_function=MinkowskiLoss(), real_data=np.zeros((3, 1)), model=model, parameters_bounds=[[0.0], [1.0]],
-                       parameters_precision=[0.25], ensemble_size=1, samplers=samplers, verbose=False, random_state=0, n_jobs=1)
+    import contextlib
+    import io
+    import shutil
+    import tempfile
+
+    model.__name__ = "model"
+    tmp = tempfile.mkdtemp(prefix="verif-c09-") if restore_at else None
+    with contextlib.redirect_stdout(io.StringIO()):
+        c = cal.Calibrator(loss_function=MinkowskiLoss(), real_data=np.zeros((3, 1)), model=model, parameters_bounds=[[0.0], [1.0]],
+                           parameters_precision=[0.25], ensemble_size=1, samplers=samplers, verbose=False, saving_folder=tmp, random_state=0, n_jobs=1)
     total = 0
     msgs = []
     bad = False
-    for k, nb in enumerate(splits):
-        if k in restore_at:
-            c.scheduler = pickle.loads(pickle.dumps(c.scheduler))
-            for s in c.scheduler.samplers:
-                type(s).log = log
-        c.calibrate(nb)
-        total += nb
+    try:
+        for k, nb in enumerate(splits):
+            if k in restore_at:
+                # a real stop/restore cycle: the object is thrown away and rebuilt from the checkpoint calibrate() wrote
+                with contextlib.redirect_stdout(io.StringIO()):
+                    c = cal.Calibrator.restore_from_checkpoint(tmp, model)
+                for s in c.scheduler.samplers:
+                    type(s).log = log
+            with contextlib.redirect_stdout(io.StringIO()):
+                c.calibrate(nb)
+            total += nb
+    finally:
+        if tmp:
+            shutil.rmtree(tmp, ignore_errors=True)
     exp = [i % n for i in range(total)]
     if log != exp:
         bad = True
